@@ -60,7 +60,13 @@ Definition file_wf (s : schema) (i : nat) : bool :=
   nodup_str (map fst (f_imports f)) &&
   refs_wf s i [] (flat_file f).
 
-Definition wf (s : schema) : bool := forallb (file_wf s) (seq 0 (length s)).
+(* field numbers of a message are distinct (DuplicatedMessageFieldNumber) *)
+Definition fields_wf (s : schema) (i : nat) : bool :=
+  forallb (fun fd => match fd_def fd with
+                     | DMsg _ _ _ fs => nodup_str (map (fun fl => dec (fl_num fl)) fs)
+                     | _ => true end) (flat_file (getf s i)).
+
+Definition wf (s : schema) : bool := forallb (fun i => file_wf s i && fields_wf s i) (seq 0 (length s)).
 
 (* ---- the property's precondition ---- *)
 Definition ns_macro (L : lang) : ns := match L with LC => NsMacro | _ => NsMod end.
@@ -143,9 +149,18 @@ Definition derived_stems (L : lang) (s : schema) (i : nat) : list string :=
   | _ => map (fun m => upper_case (snake_case m)) (msg_names L s i)
   end.
 
+(* names from which function names are derived: aliases and messages share the C function name
+   space although typedef names and struct tags do not *)
+Definition fn_stems (L : lang) (s : schema) (i : nat) : list string :=
+  flat_map (fun fd => match fd_def fd with
+                      | DAlias n _ => [dname L KAlias (own_px s i L) (fd_path fd) n]
+                      | DMsg n _ _ _ => [dname L KMessage (own_px s i L) (fd_path fd) n]
+                      | _ => [] end) (flat_file (getf s i)).
+
 Definition pre (L : lang) (s : schema) (i : nat) : bool :=
   nodup_keys (file_base_keys L s i) &&
   nodup_str (derived_stems L s i) &&
+  nodup_str (fn_stems L s i) &&
   forallb (fun k => negb (is_reserved L (snd k))) (file_base_keys L s i) &&
   forallb (field_names_ok L) (flat_file (getf s i)).
 
